@@ -502,6 +502,13 @@ func c19hotkeyCommand(env sched.Env) *sched.Report {
 						accessed[k] = true
 					}
 				}
+				// scripts: a script called without keys accesses none (its arguments are not key names); one called with a
+				// key accesses that key
+				for j := 0; j < 3; j++ {
+					c.Do("EVAL", "return 1", "0", "only-an-argument")
+				}
+				c.Do("EVAL", "return 1", "1", "script-key", "script-arg")
+				accessed["script-key"] = true
 				sched.WaitQuiescent()
 				sched.AdvanceTime(int64(10*1e9) + 1) // the collect ticker
 				sched.WaitQuiescent()
